@@ -13,6 +13,9 @@ from mc import impl, lattice, runner
 from mc.checks.c01 import metaschema_valid
 from mc.gen import atoms as A
 
+from statham.schema.elements import Element, String
+from statham.schema.parser import parse_element
+
 import warnings
 
 warnings.filterwarnings("ignore", category=FutureWarning)
@@ -282,7 +285,7 @@ def plan(tier, seed):
     n = len(schemas)
     chunk = 40
     items += [("ext", lo, min(lo + chunk, n)) for lo in range(0, n, chunk)]
-    items += [("corner",)]
+    items += [("corner",)] + [("fmt", r, r + 1) for r in range(16)]
     return {"items": items, "meta": {"tier": tier, "extreme_schemas": n, "extreme_values": len(extreme_values()), "corner_schemas": len(CORNER_SCHEMAS), "budget_call_events": BUDGET, "exhaustive": True}}
 
 
@@ -341,6 +344,8 @@ def work(item):
                     st.notes["nan/" + kn] += 1
             if st.c["states"] % 37 == 1:
                 st.sample({"extreme_schema": runner.jsonable(schema), "values": len(vals)})
+    elif item[0] == "fmt":
+        format_layer(st, item[1], item[2])
     elif item[0] == "corner":
         from statham.schema.exceptions import SchemaParseError
         from statham.schema.parser import parse_element as _pe
@@ -394,6 +399,30 @@ def work(item):
                 for v in (None, 1, "a", [], {}, {"a": 1}, [1]):
                     judge_call(st, schema, el, v, "corner")
     return st
+
+
+def format_grammar():
+    """Strings around the shapes the built-in checkers' parsers look for: digit runs of many lengths between separators."""
+    prefixes = ["", "10:", "10:10:", "2020-01-01T10:10:", "2020-01-01T", "2020-", "T", "0.", "-", "+", "1e", "1E+", "10:10:10.", "10:10:10+", "1 ", "jan ", "{", "urn:uuid:"]
+    runs = [1, 2, 4, 5, 8, 12, 19, 20, 27, 28, 29, 30, 31, 32, 33, 60, 400, 4400]
+    suffixes = ["", "Z", ":00", " UTC", ".5", "-", "}", " pm", "e5"]
+    for p in prefixes:
+        for n in runs:
+            for d in ("9", "0", "1"):
+                for x in suffixes:
+                    yield p + d * n + x
+
+
+def format_layer(st, lo, hi):
+    for fmt in ("date-time", "uuid"):
+        els = [String(format=fmt), Element(format=fmt), parse_element({"type": "string", "format": fmt}), parse_element({"properties": {"a": {"format": fmt}}}), parse_element({"anyOf": [{"format": fmt}, {"type": "null"}]})]
+        for n, v in enumerate(format_grammar()):
+            if not lo <= n % 16 < hi:
+                continue
+            for k, el in enumerate(els):
+                judge_call(st, {"format": fmt, "element": k}, el, {"a": v} if k == 3 else v, "fmt")
+            st.add("states")
+            st.add("transitions")
 
 
 def runner_safe(schema):
